@@ -8,7 +8,8 @@ import os
 import sys
 import time as _time
 
-sys.path.insert(0, "/verif/harness/tools")
+_H = os.path.dirname(os.path.abspath(__file__))
+sys.path.insert(0, _H + "/tools")
 import xmlsec_core  # noqa: E402
 
 logging.disable(logging.CRITICAL)
@@ -19,8 +20,8 @@ from saml2_tophat import BINDING_HTTP_POST, BINDING_HTTP_REDIRECT, BINDING_SOAP 
 from saml2_tophat import sigver, time_util, algsupport  # noqa: E402
 from saml2_tophat.config import SPConfig, IdPConfig  # noqa: E402
 
-KEYS = "/verif/harness/keys"
-TOOL = "/verif/harness/tools/xmlsec1"
+KEYS = _H + "/keys"
+TOOL = _H + "/tools/xmlsec1"
 IDP_ID = "https://idp.example.org/idp"
 IDP2_ID = "https://idp2.example.org/idp"
 SP_ID = "https://sp.example.org/sp"
